@@ -35,22 +35,6 @@ theorem createRange_empty_of_extent_nil (b : Bytes) (el : Element) (st en : Toke
     · simp [hlt] at he
     · simp [buildRange, Rng.isEmpty]; omega
 
-theorem elementRange_false_flag (cfg : Cfg) (content : Bytes) (el : Element) (st en : Token)
-    (r : Rng) (p : Option Rng) (b : Bool) (h : elementRange cfg content false el st en = some (r, p, b)) :
-    b = true := by
-  unfold elementRange at h
-  cases hs : isSkip el <;> rw [hs] at h
-  · cases he : evaluatorFor cfg el.name <;> rw [he] at h
-    · simp at h
-    · rename_i ev
-      cases hv : ev el <;> simp [hv] at h
-      cases hc : createRange content el st en with
-      | mk r' p' =>
-        rw [hc] at h
-        simp only at h
-        exact h.2.2.2
-  · simp at h
-
 /-- what has to hold of every element for nothing to be collected -/
 def NoneReady (cfg : Cfg) (content : Bytes) (parts : List Part) : Prop :=
   ∀ el st en, (el, st, en) ∈ elementsOf parts → elementRange cfg content false el st en = none
@@ -105,7 +89,7 @@ theorem c04 : Statement := by
     | none => rfl
     | some rpb =>
       obtain ⟨r, p, b⟩ := rpb
-      have hbt := elementRange_false_flag cfg _ el st en r p b her
+      have hbt := Chiritori.elementRange_false_flag cfg _ el st en r p b her
       subst hbt
       obtain ⟨hc, hne⟩ := (C06.ready_iff cfg (bytesOf src) false el st en).mp ⟨r, p, her⟩
       have := createRange_empty_of_extent_nil (bytesOf src) el st en (by omega) (by simp; omega) (hext hc)
